@@ -117,29 +117,27 @@ Theorem C15_outside_empty : forall t sb coor,
 Proof. intros t sb coor. split; [exact (proj_point_outside t sb coor)|exact (proj_point_rejected t sb coor)]. Qed.
 Print Assumptions C15_outside_empty.
 
-(* Rows and samples: when every sample is located on the grid, row k of the matrix is the row of sample k ... *)
-Theorem C15_rows_aligned : forall t pts k,
-  all_located t (selbis t) pts -> (k < length pts)%nat ->
-  nth k (fst (proj_turbo t pts)) [] = row_spec t (selbis t) (nth k pts []).
-Proof. exact rows_aligned. Qed.
+(* Rows and samples: the matrix has one row per sample and row k is the row of sample k, whatever the samples
+   (MeshETurbo::resetProjMatrix advances its row counter for a sample outside the grid too); in particular a sample
+   outside the grid has an empty row.  (Before the repair the counter was not advanced and the following rows were shifted:
+   the former witness - 3x3 unit grid, samples (5, 1/4), (1/4, 1/4) - is kept in corpus/C15.sx and below.) *)
+Theorem C15_rows_aligned : forall t pts,
+  length (fst (proj_turbo t pts)) = length pts /\
+  forall k, (k < length pts)%nat ->
+    nth k (fst (proj_turbo t pts)) [] = row_spec t (selbis t) (nth k pts []) /\
+    (fst (C16.Model.c2i (t_grid t) (nth k pts []) false eps6) = true -> nth k (fst (proj_turbo t pts)) [] = []).
+Proof.
+  intros t pts. split; [exact (rows_count t pts)|]. intros k Hk.
+  split; [exact (rows_aligned t pts k Hk)|exact (row_outside_empty t pts k Hk)].
+Qed.
 Print Assumptions C15_rows_aligned.
-
-(* ... but not in general: MeshETurbo::resetProjMatrix does not advance its row counter for a sample outside the grid,
-   so the rows of the following samples are shifted. Witness: 3x3 unit grid, samples (5, 1/4) and (1/4, 1/4):
-   the row of the first sample (outside) holds the weights of the second. Replayed on the implementation by the check. *)
 Definition witness_grid : turbo :=
   {| t_grid := {| C16.Model.g_nx := [3; 3]%Z; C16.Model.g_x0 := [0; 0]; C16.Model.g_dx := [1; 1];
                   C16.Model.g_rot := C16.Model.rot_identity 2 |};
      t_pol := false; t_sel := [] |}.
-Theorem C15_rows_aligned_refuted : exists t pts k,
-  (k < length pts)%nat /\
-  p_located (proj_point t (selbis t) (nth k pts [])) = false /\
-  nth k (fst (proj_turbo t pts)) [] <> [].
-Proof.
-  exists witness_grid, [[5; 1 # 4]; [1 # 4; 1 # 4]], 0%nat.
-  split; [cbn; lia|]. split; [vm_compute; reflexivity|vm_compute; discriminate].
-Qed.
-Print Assumptions C15_rows_aligned_refuted.
+Example C15_rows_aligned_witness :
+  map (map fst) (fst (proj_turbo witness_grid [[5; 1 # 4]; [1 # 4; 1 # 4]])) = [[]; [0; 1; 3]%Z].
+Proof. vm_compute. reflexivity. Qed.
 
 (* ================================================================== projection on a standard meshing *)
 
@@ -168,14 +166,22 @@ Theorem C15_standard_inside_exact : forall cs x l,
 Proof. exact weights_in_mesh_inside. Qed.
 Print Assumptions C15_standard_inside_exact.
 
-(* MeshEStandard::resetProjMatrix forces the dimensions of the matrix only when the last apex received no weight:
-   trailing samples outside the meshing then lose their (empty) rows. Witness: unit square cut in two triangles,
-   samples (3/4, 7/8) and (5, 1/4): one row for two samples. Replayed on the implementation by the check. *)
+(* MeshEStandard::resetProjMatrix: one row per sample (the dimensions are always forced), row k holds the weights found
+   for sample k in the first accepted mesh of the search, or nothing.  (Before the repair trailing samples outside the
+   meshing lost their rows when the last apex had received a weight; former witness kept in corpus/C15.sx and below.) *)
+Theorem C15_standard_rows : forall s pts,
+  fst (fst (proj_standard s pts)) = length pts /\
+  length (snd (fst (proj_standard s pts))) = length pts /\
+  forall k, (k < length pts)%nat ->
+    nth k (snd (fst (proj_standard s pts))) [] = srow_entries s (nth k (snd (proj_standard s pts)) srow_none).
+Proof. exact standard_rows. Qed.
+Print Assumptions C15_standard_rows.
 Definition witness_smesh : smesh :=
   {| s_ndim := 2; s_apices := [[0; 0]; [1; 0]; [0; 1]; [1; 1]]; s_meshes := [[0; 1; 2]; [2; 1; 3]]%nat |}.
-Theorem C15_standard_rows_refuted : exists s pts, fst (fst (proj_standard s pts)) <> length pts.
-Proof. exists witness_smesh, [[3 # 4; 7 # 8]; [5; 1 # 4]]. vm_compute. discriminate. Qed.
-Print Assumptions C15_standard_rows_refuted.
+Example C15_standard_rows_witness :
+  fst (fst (proj_standard witness_smesh [[3 # 4; 7 # 8]; [5; 1 # 4]])) = 2%nat /\
+  map (map fst) (snd (fst (proj_standard witness_smesh [[3 # 4; 7 # 8]; [5; 1 # 4]]))) = [[2; 1; 3]%Z; []].
+Proof. vm_compute. split; reflexivity. Qed.
 
 (* ================================================================== polynomial of an operator, precision matrix *)
 
@@ -213,22 +219,14 @@ Theorem C15_free_eq_assembled : forall n S lam c v i,
 Proof. intros. split; [apply free_eq_assembled|apply training_eq_plain]; assumption. Qed.
 Print Assumptions C15_free_eq_assembled.
 
-(* ALinearOp::addToDest: the assembled form adds Q.v to the destination ... *)
-Theorem C15_addToDest_assembled : forall n S lam c inv outv i,
+(* ALinearOp::addToDest: both forms add the same vector Q.v to the destination
+   (PrecisionOp::_addToDest evaluates aside and accumulates; before the repair it wrote over the destination) *)
+Theorem C15_addToDest : forall n S lam c inv outv i,
   c <> [] -> (i < n)%nat ->
-  vget (add_to_dest_cs n S lam c inv outv) i == vget outv i + vget (add_eval_power n S lam c inv) i.
-Proof. exact add_to_dest_cs_spec. Qed.
-Print Assumptions C15_addToDest_assembled.
-(* ... the matrix-free form does not: PrecisionOp::_addToDest writes Q.v over the destination, so the two forms differ
-   as soon as the destination is not zero (S = 0, Lambda = 1, P = 1, v = 1, destination 1: 1 instead of 2).
-   SPDEOp (matrix-free krigingSPDENew) adds the precision term to a destination that already holds the data term. *)
-Theorem C15_addToDest_free_refuted : exists n S lam c inv outv i,
-  (i < n)%nat /\ c <> [] /\
-  ~ vget (add_to_dest_free n S lam c inv outv) i == vget outv i + vget (add_eval_power n S lam c inv) i.
-Proof.
-  exists 1%nat, [[0]], [1], [1], [1], [1], 0%nat. split; [lia|]. split; [discriminate|]. vm_compute. discriminate.
-Qed.
-Print Assumptions C15_addToDest_free_refuted.
+  vget (add_to_dest_free n S lam c inv outv) i == vget (add_to_dest_cs n S lam c inv outv) i /\
+  vget (add_to_dest_cs n S lam c inv outv) i == vget outv i + fmv n (Qspec n (get S) (vget lam) c) (vget inv) i.
+Proof. exact add_to_dest_agree. Qed.
+Print Assumptions C15_addToDest.
 
 (* S symmetric => Q symmetric *)
 Theorem C15_Q_symmetric : forall n S lam c,
@@ -264,15 +262,13 @@ Example C15_nonvacuous_turbo :
   let y := C16.Model.i2c (t_grid ex_turbo) [2; 1]%Z [3 # 4; 3 # 4] true in
   (exists idx lam w m, add_weights ex_turbo sb 1 [0; 0]%Z x = Wok idx lam w m /\ all_nonneg lam /\ w = lam /\ idx = [0; 4; 5]%Z) /\
   (exists m, add_weights ex_turbo sb 0 [0; 0]%Z x = Wfail m) /\
-  p_found (proj_point ex_turbo sb y) = None /\ p_located (proj_point ex_turbo sb y) = true /\
-  all_located ex_turbo sb [x; y].
+  p_found (proj_point ex_turbo sb y) = None /\ p_located (proj_point ex_turbo sb y) = true.
 Proof.
-  cbv zeta. split; [|split; [|split; [|split]]].
+  cbv zeta. split; [|split; [|split]].
   - vm_compute. eexists _, _, _, _. split; [reflexivity|]. split; [|split; reflexivity]. repeat split; discriminate.
   - vm_compute. eexists. reflexivity.
   - vm_compute. reflexivity.
   - vm_compute. reflexivity.
-  - repeat constructor; vm_compute; reflexivity.
 Qed.
 
 Example C15_nonvacuous_inside_gets_row :
